@@ -77,7 +77,14 @@ def run(res, tier, build_ok):
                         facade = SCSI(dev)
                     elif e == "xf" and facade is not None:
                         res.count("command through the facade")
-                        facade.testunitready()
+                        if rng.random() < 0.3 and hasattr(facade.device.opcodes, "ATA_PASS_THROUGH_16"):
+                            facade.atapassthrough16(3, 0, 0, 0, 0, 0, 0, 0, 0, 0xE5)
+                        else:
+                            facade.testunitready()
+                    elif rng.random() < 0.35:
+                        # the raw-sense path (what the ATA PASS-THROUGH facade methods use) is a command like any other
+                        res.count("command with en_raw_sense=True")
+                        dev.execute(TestUnitReady(sets["spc"].TEST_UNIT_READY), en_raw_sense=True)
                     else:
                         dev.execute(TestUnitReady(sets["spc"].TEST_UNIT_READY))
                     o = "sent"
